@@ -386,6 +386,29 @@ func genF15(add func(tcase)) {
 				File: &pbfgen.File{Header: pbfgen.StdHeader(), Blocks: []pbfgen.Block{b, {Groups: mixedGroups(300, false)}}}})
 		}
 	}
+	// a real string at string-table index 0, used as a role, a tag key, a tag value and a user
+	// name from there (0 is only special in the keys of dense nodes)
+	for _, zs := range []string{"x", "outer", "a"} {
+		for _, withDense := range []bool{false, true} {
+			w := pbfgen.Way{ID: 42, Tags: [][2]string{{zs, "v"}, {"k", zs}}, Refs: []int64{1, 2}, Info: pbfgen.FullInfo(42)}
+			u := zs
+			w.Info.User = &u
+			rl := pbfgen.Relation{ID: 52, Tags: [][2]string{{"type", zs}}, Members: []pbfgen.Member{{Type: 0, Ref: 1, Role: zs}, {Type: 1, Ref: 42, Role: "x"}, {Type: 2, Ref: 7, Role: zs}}}
+			gs := []pbfgen.Group{{Relations: []pbfgen.Relation{rl, fatRelation(51)}}, {Ways: []pbfgen.Way{w, fatWay(41)}}}
+			if withDense {
+				d := &pbfgen.Dense{Info: true, Cols: pbfgen.ColsMask(63), KeysVals: true}
+				for i := 1; i <= 3; i++ {
+					n := pbfgen.DenseNode(int64(i), int64(i))
+					n.Tags = [][2]string{{zs, "dense value"}, {"dense key", zs}}
+					n.User = zs
+					d.Nodes = append(d.Nodes, n)
+				}
+				gs = append(gs, pbfgen.Group{Dense: d})
+			}
+			add(tcase{Family: "F15", Desc: fmt.Sprintf("string %q at string-table index 0, dense group=%v", zs, withDense), NonTrivial: true,
+				File: &pbfgen.File{Header: pbfgen.StdHeader(), Blocks: []pbfgen.Block{{ZeroString: zs, Groups: gs}, {Groups: mixedGroups(300, false)}}}})
+		}
+	}
 	// keys_vals present although no node has a tag (one 0 per node), first / last node tagless
 	for _, pat := range []string{"---", "t--", "--t", "-t-", "ttt"} {
 		d := &pbfgen.Dense{Info: true, Cols: pbfgen.ColsMask(63), KeysVals: true}
